@@ -6,6 +6,7 @@ package main
 
 import (
 	"fmt"
+	"strconv"
 	"strings"
 )
 
@@ -119,12 +120,61 @@ func add(a, b string) string {
 	if b == "0" {
 		return a
 	}
+	// fold constants: (+ (+ x 4) 1) -> (+ x 5)
+	if n, err := strconv.ParseInt(b, 10, 64); err == nil {
+		if m, err := strconv.ParseInt(a, 10, 64); err == nil {
+			return itoa(m + n)
+		}
+		if strings.HasPrefix(a, "(+ ") {
+			body := a[3 : len(a)-1]
+			if k := strings.LastIndex(body, " "); k > 0 {
+				if m, err := strconv.ParseInt(body[k+1:], 10, 64); err == nil && balancedOne(body[:k]) {
+					if m+n == 0 {
+						return body[:k]
+					}
+					return "(+ " + body[:k] + " " + itoa(m+n) + ")"
+				}
+			}
+		}
+	}
 	return sx("+", a, b)
+}
+
+// balancedOne: s is exactly one s-expression (atom or parenthesised)
+func balancedOne(s string) bool {
+	d := 0
+	for i, ch := range s {
+		switch ch {
+		case '(':
+			d++
+		case ')':
+			d--
+			if d < 0 {
+				return false
+			}
+		case ' ':
+			if d == 0 {
+				return false
+			}
+		}
+		_ = i
+	}
+	return d == 0
 }
 
 func sub(a, b string) string {
 	if b == "0" {
 		return a
+	}
+	if a == b {
+		return "0"
+	}
+	// (- (+ b y) b) -> y
+	if strings.HasPrefix(a, "(+ "+b+" ") {
+		rest := a[len("(+ "+b+" ") : len(a)-1]
+		if balancedOne(rest) {
+			return rest
+		}
 	}
 	return sx("-", a, b)
 }
@@ -143,10 +193,12 @@ type Script struct {
 	lines []string
 	n     int
 	decl  map[string]bool
+	alias map[string]string // defined name -> defining term
+	memo  map[string]string // defining term -> name (definitions are pure, so they can be shared)
 }
 
 func newScript() *Script {
-	return &Script{decl: map[string]bool{}}
+	return &Script{decl: map[string]bool{}, alias: map[string]string{}, memo: map[string]string{}}
 }
 
 func (s *Script) fresh(prefix string) string {
@@ -198,12 +250,21 @@ func (s *Script) def(prefix string, c Cell) Cell {
 	if isAtom(c.T) {
 		return c
 	}
+	key := c.T
+	if c.B {
+		key = "B:" + key
+	}
+	if n, ok := s.memo[key]; ok {
+		return Cell{T: n, B: c.B}
+	}
 	n := s.fresh(prefix)
 	sort := "Int"
 	if c.B {
 		sort = "Bool"
 	}
 	s.raw(fmt.Sprintf("(define-fun %s () %s %s)", n, sort, c.T))
+	s.alias[n] = c.T
+	s.memo[key] = n
 	return Cell{T: n, B: c.B}
 }
 
